@@ -36,7 +36,8 @@ type info struct {
 }
 
 func check(c Case) (inf info, err error) {
-	if e := xmlinfo.WellFormed([]byte(c.Src), c.Entities); e != nil {
+	if e := xmlinfo.Document([]byte(c.Src), c.Entities); e != nil {
+		// encoding/xml alone is more lenient than XML 1.0 (text outside the root, <! + anything as a directive, ...)
 		inf.skipped = "input-not-well-formed"
 		return inf, nil
 	}
